@@ -22,6 +22,9 @@ type zzCloser struct{}
 func (zzCloser) Close() error { return nil }
 
 func zz_readTrees(file string) (goio.Closer, <-chan tree.Trees, error) {
+	if zzErrAt >= 0 {
+		return zzReadTreesErr(file)
+	}
 	ch := make(chan tree.Trees, len(zzTrees)+1)
 	for i, t := range zzTrees {
 		ch <- tree.Trees{Tree: t, Id: i}
